@@ -463,6 +463,12 @@ class Verifier:
                 tg = [stmt.target]
             if isinstance(stmt, ast.With):      # transparent context managers (st_With)
                 return any(assigns(x, name) for x in stmt.body)
+            if isinstance(stmt, ast.Expr) and isinstance(stmt.value, ast.Call) \
+                    and isinstance(stmt.value.func, ast.Attribute) \
+                    and stmt.value.func.attr in ('append', 'extend') \
+                    and isinstance(stmt.value.func.value, ast.Name) \
+                    and stmt.value.func.value.id == name:
+                return True                     # growing a list counts as assigning it
             return any(isinstance(x, ast.Name) and x.id == name for t in tg for x in ast.walk(t))
         found = None
         rename = {}
